@@ -36,7 +36,7 @@ META = {
                   'relocation (C03) enter the model as parameters that the theorems quantify over. Not reachable through Go-compiled targets and '
                   'therefore proved but not exercised: the too-small and already-patched exits of replaceFunc. Out of scope: internal-only '
                   'Guard.Restore/UnpatchAll, concurrency (C11). Kept mocker handles (keep / Apply / Return / Cancel through the handle, every via incl. by-name and method values) '
-                  'are modelled ops (plus the older oracle-only lane c02.stale, defect F16); the generators never look a function up afresh while its '
+                  'and the two-level Struct(x) -> Method(m)/ExportMethod(m) lookup with a kept struct mocker are modelled ops (plus the older oracle-only lane c02.stale, defect F16); the generators never look a function up afresh while its '
                   'kept handle is cancelled: that orphans the handle (the builder replaces its cache entry, Reset cannot reach the old mocker) — '
                   'recorded in Findings/C02Orphan.lean.',
 }
@@ -70,8 +70,15 @@ CORPUS = [  # hand-written scenarios that always run first (1 builder unless the
     '1 | k 0 f 3 ; R 0 f 3 1 ; C 0 f 3 ; R 0 f 3 2 ; a 0 f 3 0 ; x 0 ; x 0',
     '1 | k 0 m 7 ; A 0 m 7 1 ; x 0 ; R 0 m 7 2 ; r 0 m 7 3 ; x 0',
     '2 | k 0 e 1 ; k 1 f 1 ; A 0 e 1 0 ; A 1 f 1 1 ; C 0 e 1 ; A 0 e 1 2 ; a 0 e 1 3 ; x 1 ; x 0',
+    # two-level struct lookup: K keeps sm := b.Struct(x); sa/sr/sw/sc/sk go through sm, a/r/w/c/k through a fresh b.Struct(x)
+    '1 | K 0 ; a 0 m 7 1 ; sa 0 m 8 2 ; x 0 ; x 0',
+    '1 | K 0 ; sa 0 m 7 1 ; a 0 m 8 2 ; sc 0 m 8 ; x 0',
+    '1 | a 0 m 7 1 ; K 0 ; sa 0 u 9 2 ; c 0 m 7 ; K 0 ; sr 0 m 7 3 ; x 0 ; x 0',
+    '2 | K 0 ; K 1 ; sa 0 m 7 0 ; sa 1 m 7 1 ; a 0 u 9 2 ; x 1 ; x 0',
+    '1 | K 0 ; sk 0 m 8 ; A 0 m 8 1 ; C 0 m 8 ; A 0 m 8 2 ; c 0 m 8 ; x 0',
+    '1 | K 0 ; K 0 ; sw 0 m 8 1 3 ; a 0 u 9 1 ; sc 0 u 9 ; sa 0 u 9 2 ; x 0',
 ]
-MALFORMED = ['1 | a 0 q 0 1', '1 | a 0 m 0 1', '1 | a 0 f 12 1', '1 | a 3 f 0 1', '1 | z 0', '1 | a 0 f 0 9', '1 | a 0 f 0 1 3', '1 | a 0 f 0', '1 | w 0 u 9 1', '1 | w 0 f 7 1', '1 | w 0 f 5 1', '1 | A 0 f 0 1', '1 | k 0 f 0 ; C 0 e 0', '1 | k 0 v 0', '1 | k 0 f 0 1']
+MALFORMED = ['1 | a 0 q 0 1', '1 | a 0 m 0 1', '1 | a 0 f 12 1', '1 | a 3 f 0 1', '1 | z 0', '1 | a 0 f 0 9', '1 | a 0 f 0 1 3', '1 | a 0 f 0', '1 | w 0 u 9 1', '1 | w 0 f 7 1', '1 | w 0 f 5 1', '1 | A 0 f 0 1', '1 | k 0 f 0 ; C 0 e 0', '1 | k 0 v 0', '1 | k 0 f 0 1', '1 | sa 0 m 7 1', '1 | K 0 ; sa 0 f 0 1', '1 | K 0 1', '1 | K 0 ; sa 0 e 7 1']
 
 
 def gen_history(rng, maxlen=25):
@@ -83,6 +90,11 @@ def gen_history(rng, maxlen=25):
     pool = sorted({rng.below(NT) for _ in range(2 + rng.below(5))})
     steps = []
     use_handles = rng.chance(1, 3)
+    struct_focus = rng.chance(1, 6)   # histories about the two-level Struct(x) -> Method(m) lookup with a kept struct mocker
+    if struct_focus:
+        use_handles = True
+        pool = sorted(set(pool) | {7, 8, 9})
+    kept_structs = set()  # builders whose struct mocker sm := b.Struct(x) is kept (op K)
     hstate = {}          # (b, via, t) -> 'live' | 'cancelled'
     for _ in range(n):
         r = rng.below(100)
@@ -95,14 +107,25 @@ def gen_history(rng, maxlen=25):
                 if k_[0] == b:
                     hstate[k_] = 'cancelled'
             continue
+        if use_handles and rng.chance(1, 5 if struct_focus else 12):
+            steps.append(f'K {b}')
+            kept_structs.add(b)
+            continue
         t = rng.choice(pool)
         via = rng.choice(VIAS[t])
+        if struct_focus and rng.chance(3, 4):
+            t = rng.choice([7, 8, 9])
+            via = 'u' if t == 9 else rng.choice('mu')
         if use_handles and hstate and rng.chance(3, 5):
             b, via, t = rng.choice(sorted(hstate))     # come back to a kept handle
         key = (b, via, t)
+
+        def sp():
+            """go through the kept struct mocker instead of a fresh b.Struct(x)"""
+            return via in 'mu' and b in kept_structs and rng.chance(1, 2)
         if use_handles and (key in hstate or rng.chance(1, 3)):
             if key not in hstate or rng.chance(1, 8):
-                steps.append(f'k {b} {via} {t}')
+                steps.append(('sk' if sp() else 'k') + f' {b} {via} {t}')
                 hstate[key] = 'live'
                 continue
             if hstate[key] == 'cancelled' or rng.chance(1, 2):
@@ -120,20 +143,21 @@ def gen_history(rng, maxlen=25):
             # handle is live: a fresh lookup returns the same mocker
             if r < 30:
                 hstate[key] = 'cancelled'
+        pre = 's' if sp() else ''
         if r < 30:
-            steps.append(f'c {b} {via} {t}')
+            steps.append(f'{pre}c {b} {via} {t}')
             continue
         o = ''
         if rng.chance(1, 4):
             o = ' 3' if t in METHODS else f' {rng.below(3)}'
         if r < 75:
-            steps.append(f'a {b} {via} {t} {rng.below(4)}{o}')
+            steps.append(f'{pre}a {b} {via} {t} {rng.below(4)}{o}')
         elif r < 90:
-            steps.append(f'r {b} {via} {t} {rng.below(50)}{o}')
+            steps.append(f'{pre}r {b} {via} {t} {rng.below(50)}{o}')
         elif (t in METHODS and via != 'm') or t == 5:
-            steps.append(f'r {b} {via} {t} {rng.below(50)}{o}')   # When(arg) needs the Struct(..).Method mocker on methods; the generic body receives a dictionary first (argument fidelity is C01)
+            steps.append(f'{pre}r {b} {via} {t} {rng.below(50)}{o}')   # When(arg) needs the Struct(..).Method mocker on methods; the generic body receives a dictionary first (argument fidelity is C01)
         else:
-            steps.append(f'w {b} {via} {t} {rng.below(50)}{o}')
+            steps.append(f'{pre}w {b} {via} {t} {rng.below(50)}{o}')
     return f'{nb} | ' + ' ; '.join(steps[:maxlen])
 
 
@@ -244,7 +268,9 @@ def oracle(hist, obs, fixok):
         res, d, b, n = m.groups()
         beh = b.split(',')
         restored = set()
-        if st[0] == 'k':
+        if len(st[0]) == 2 and st[0][0] == 's':
+            st = [st[0][1:]] + st[1:]            # through the kept struct mocker: the same child mocker as a fresh b.Struct(x) gives
+        if st[0] in ('k', 'K'):
             st = ['nop']                         # a bare lookup mocks nothing
         elif st[0] in 'ARC':
             st = [st[0].lower()] + st[1:]        # through a kept handle: same mocker as the (builder, via, target) lookup
@@ -401,6 +427,8 @@ def stats(hists, impl):
                 lastreset[st[1]] = i
                 for key in [k for k in applied if k[0] == st[1]]:
                     applied[key] = 'reset'
+            elif st[0] == 'K' or (len(st[0]) == 2 and st[0][0] == 's'):
+                feats['struct mocker kept' if st[0] == 'K' else 'steps through a kept struct mocker'] += 1
             elif st[0] in 'ARCk':
                 vias[st[2]] += 1
                 feats['steps through a kept handle' if st[0] != 'k' else 'handles kept'] += 1
